@@ -172,6 +172,21 @@ def check(fb, ctx):
     ob = fb.hir_of("biscuit_auth::token::authorizer::snapshot::authorizer_origin_to_proto_origin")
     ifs = [i for i in find_all(ob["body"], lambda z: z.get("k") == "if")]
     okw = len(ifs) == 1 and "MAX" in str(strip(ifs[0]["cond"])) and bool(find_all(ifs[0]["then"], lambda z: (hirq.ctor_name(z) or "").endswith("origin::Content::Authorizer"))) and bool(find_all(ifs[0]["else"], lambda z: (hirq.ctor_name(z) or "").endswith("origin::Content::Origin")))
+    if not okw:
+        # any other spelling (`match`, `content` computed first): interpret the per-origin closure for usize::MAX and for a block id
+        import absint
+        MAXV = 2 ** 64 - 1
+        for cl in find_all(ob["body"], lambda z: z.get("k") == "closure" and len(z.get("params") or []) == 1):
+            try:
+                res_ = {}
+                for nm_, v_ in (("max", MAXV), ("block", 1)):
+                    it_ = absint.Interp(consts={"MAX": MAXV})
+                    res_[nm_] = it_.apply(("fn", cl["params"], cl["body"], absint.Env()), [v_])
+                content = lambda v_: (absint.find_ctor(v_, "Some") or (None, None, [None]))[2][0]      # what `content: Some(..)` holds
+                cm_, cb_ = content(res_["max"]), content(res_["block"])
+                okw = okw or (absint.tag(cm_) == "Authorizer" and absint.tag(cb_) == "Origin" and cb_[2] and cb_[2][0] == 1)
+            except absint.Unknown:
+                pass
     ctx.check(okw, "ORIGIN", "writer: usize::MAX -> Authorizer, i -> Origin(i)", "ORIGIN|writer", "origin encoding table changed", "biscuit-auth/src/token/authorizer/snapshot.rs")
     pb = fb.hir_of("biscuit_auth::token::authorizer::snapshot::proto_origin_to_authorizer_origin")
     pm = [m for m in hirq.matches_in(pb["body"]) if "origin::Content" in (m.get("sty") or "")]
